@@ -1,0 +1,66 @@
+//go:build verif
+
+package mr
+
+// Contracts for the deductive verifier in /verif (govc). Comment-only file: adds no code.
+
+// The three arms of the driver: context done => DeadlineExceeded after cancel(DeadlineExceeded); a value or the
+// close of `output` => a recorded cancel error wins, else the reducer's value, else ErrReduceNoOutput.
+//@ func mapReduceWithPanicChan
+//@   prop C07
+//@   opaque buildOptions, newGuardedWriter, drain, once, Load
+//@   let out = ret("recv-output", 0)
+//@   ensures [cancelled-wins] calls(Load) == 1 && ret(Load) != nil ==> result1 == ret(Load) && result0 == nil
+//@   ensures [value-or-no-output] calls(Load) == 1 && ret(Load) == nil ==> (result1 == nil || result1 == ErrReduceNoOutput) && (result1 == ErrReduceNoOutput ==> result0 == nil)
+//@   ensures [deadline] calls(Load) == 0 ==> result1 == context.DeadlineExceeded && result0 == nil && calls(cancel, context.DeadlineExceeded) == 1
+//@   ensures [two-goroutines] calls("go mapReduceWithPanicChan$4") == 1 && calls("go executeMappers") == 1
+
+// cancel's body: the first error is recorded (nil becomes ErrCancelWithNil), the source is drained, the run finished.
+//@ func mapReduceWithPanicChan$3
+//@   prop C07
+//@   opaque drain, Set
+//@   ensures [records-error] err != nil ==> calls(Set, _, err) == 1
+//@   ensures [nil-becomes-cancel-with-nil] err == nil ==> calls(Set, _, ErrCancelWithNil) == 1
+//@   ensures [then-drains-and-finishes] calls(drain) == 1 && calls(finish) == 1 && before(Set, drain) && before(drain, finish)
+
+// once(fn): every call goes through one sync.Once, so only the first cancel runs fn.
+//@ func once$1
+//@   prop C07
+//@   ensures [through-one-once] calls(Do) == 1 && arg(Do, 0) == oc
+//@ func once$1$1
+//@   prop C07
+//@   ensures [forwards] calls(fn, err) == 1
+
+// onceChan.write: only the first panic value is sent.
+//@ func (*onceChan).write
+//@   prop C07
+//@   requires c != nil
+//@   ensures [first-only] (calls("send") == 1) == (old(c.wrote) == 0) && calls("send") <= 1 && c.wrote == ite(old(c.wrote) == 0, 1, old(c.wrote))
+
+// guardedWriter.Write: sends only on its default arm, never after done / context end were chosen.
+//@ func (guardedWriter).Write
+//@   prop C07
+//@   ensures [at-most-one-send] calls("send") <= 1 && (calls("send") == 1 ==> arg("send", 0) == v && calls("recv") == 0)
+
+// Worker pool of executeMappers: a pool slot is taken before an item is received; an exhausted source gives the
+// slot back; otherwise exactly one worker goroutine is spawned for the item, registered in the WaitGroup first.
+//@ func executeMappers
+//@   prop C07
+//@   opaque newGuardedWriter, drain
+//@   loop 1 iteration-ensures [slot-then-item-then-worker] calls("send") == 1 && calls("recv") == 1 && before("send", "recv") && calls("wg.Add") == 1 && calls("go executeMappers$2") == 1 && before("wg.Add", "go executeMappers$2")
+//@   ensures [waits-then-closes] calls("wg.Wait") == 1 && calls("close") == 1 && before("wg.Wait", "close") && calls(drain) == 1
+
+// A worker: maps its item exactly once and always gives back its pool slot and signs off (also when the
+// mapper panics; the panic is handed to the caller through panicChan and stops further spawning).
+//@ func executeMappers$2
+//@   prop C07
+//@   may-panic mapper
+//@   opaque write
+//@   ensures [one-item-one-mapper-call] calls(mapper) == 1 && arg(mapper, 0) == item
+//@   ensures [slot-returned] calls("recv") == 1 && calls("wg.Done") == 1 && before("wg.Done", "recv")
+//@   ensures [panic-reported] panicked(mapper) ==> calls(write) == 1 && failed == old(failed) + 1
+//@   ensures [no-panic-no-report] !panicked(mapper) ==> calls(write) == 0 && failed == old(failed)
+//@ func WithWorkers$1
+//@   prop C07
+//@   requires opts != nil
+//@   ensures [at-least-one] opts.workers >= 1 && (workers >= 1 ==> opts.workers == workers)
